@@ -9,10 +9,8 @@
 (* poll that reports expiry; polls deep in the tree are only counted),     *)
 (* then s_end with the returned move and score.                            *)
 (*                                                                         *)
-(* The specification folds the root evaluations itself (with the proved    *)
-(* score order of Score.tla) and requires every commit of the engine to    *)
-(* equal its own candidate, no commit after expiry, the result to be the   *)
-(* last commit, and the properties:                                        *)
+(* The properties are decided on what the search returns (s_end) and on    *)
+(* the commits as the observation of "a deepening pass finished":          *)
 (*   C11  result is none or a legal move; none if there is no legal move;  *)
 (*        a move if the first pass was committed and legal moves exist;    *)
 (*   C12  if mate in one exists and the first pass was committed, the      *)
@@ -20,6 +18,14 @@
 (*        mate-in-one score is only reported with a mating move;           *)
 (*   C13  (event mirror_pair) per-depth committed scores of a position and *)
 (*        its colour mirror are negations of each other.                    *)
+(* The specification also folds the root evaluations itself (with the      *)
+(* proved score order of Score.tla) and compares the engine's control flow *)
+(* with the skeleton of Search.tla: every commit equals its own candidate, *)
+(* no commit after expiry, the result is the last commit, each root move   *)
+(* once per pass ...  These are statements about HOW the engine gets its   *)
+(* answer (layer S); a search organised differently may break them and     *)
+(* still satisfy the properties, so they are reported as DRIFT, never as   *)
+(* violations.                                                             *)
 (***************************************************************************)
 EXTENDS Wire, Score, TLCExt
 
@@ -53,9 +59,9 @@ SBegin ==
 Pass ==
     /\ Ev("pass")
     /\ LET e == Rec[l]
-           B == Fail("C11", "pass-started-after-expiry", ~expired)
-                \cup Fail("C11", "pass-depth-is-not-number-of-commits", e.depth = commits)
-                \cup Fail("C11", "pass-started-with-evaluation-pending", pending = NoPending)
+           B == Fail("DRIFT", "pass-started-after-expiry", ~expired)
+                \cup Fail("DRIFT", "pass-depth-is-not-number-of-commits", e.depth = commits)
+                \cup Fail("DRIFT", "pass-started-with-evaluation-pending", pending = NoPending)
        IN Report(B) /\ bad' = B
     /\ phase' = "pass" /\ evaluated' = {} /\ pending' = NoPending /\ cur' = NoMove /\ curScore' = Worst(side)
     /\ UNCHANGED <<pos, legal, side, expired, best, bestScore, commits>>
@@ -65,9 +71,9 @@ Pass ==
 Root ==
     /\ Ev("root")
     /\ LET e == Rec[l]
-           B == Fail("C11", "root-move-not-legal", e.mv \in legal)
-                \cup Fail("C11", "root-move-searched-twice-in-a-pass", e.mv \notin evaluated)
-                \cup Fail("C11", "root-outside-a-pass", phase = "pass")
+           B == Fail("DRIFT", "root-move-not-legal", e.mv \in legal)
+                \cup Fail("DRIFT", "root-move-searched-twice-in-a-pass", e.mv \notin evaluated)
+                \cup Fail("DRIFT", "root-outside-a-pass", phase = "pass")
        IN Report(B) /\ bad' = B
     /\ evaluated' = evaluated \cup {Rec[l].mv} /\ pending' = <<Rec[l].mv, ScoreOf(Rec[l].score)>>
     /\ UNCHANGED <<pos, legal, side, phase, expired, cur, curScore, best, bestScore, commits>>
@@ -80,7 +86,7 @@ Poll ==
            fold == pending # NoPending /\ ~e.expired
            better == fold /\ Better(side, curScore, pending[2])
            B == Fail("FRAMEWORK", "limit-not-monotone", expired => e.expired)
-                \cup Fail("C11", "sentinel-score-from-a-completed-root-search", fold => ~Sentinel(pending[2]))
+                \cup Fail("DRIFT", "sentinel-score-from-a-completed-root-search", fold => ~Sentinel(pending[2]))
        IN /\ Report(B) /\ bad' = B
           /\ expired' = e.expired
           /\ cur' = IF better THEN pending[1] ELSE cur
@@ -93,34 +99,38 @@ Poll ==
 Commit ==
     /\ Ev("commit")
     /\ LET e == Rec[l]
-           B == Fail("C11", "commit-after-expiry", ~expired)
-                \cup Fail("C11", "commit-with-evaluation-pending", pending = NoPending)
-                \cup Fail("C11", "committed-move-is-not-the-best-root-move", e.mv = cur)
-                \cup Fail("C12", "committed-score-is-not-the-best-root-score", Eq(ScoreOf(e.score), curScore))
-                \cup Fail("C11", "commit-depth", e.depth = commits)
+           B == Fail("DRIFT", "commit-after-expiry", ~expired)
+                \cup Fail("DRIFT", "commit-with-evaluation-pending", pending = NoPending)
+                \cup Fail("DRIFT", "committed-move-is-not-the-best-root-move", e.mv = cur)
+                \cup Fail("DRIFT", "committed-score-is-not-the-best-root-score", Eq(ScoreOf(e.score), curScore))
+                \cup Fail("DRIFT", "commit-depth", e.depth = commits)
                 \* the limit may expire right after any commit, and then this commit is the answer
                 \cup Fail("C11", "pass-committed-without-a-move-although-one-is-legal", legal # {} => e.mv # NoMove)
-                \cup Fail("C12", "first-pass-skipped-a-legal-move", commits = 0 => evaluated = legal)
+                \cup Fail("DRIFT", "first-pass-skipped-a-legal-move", commits = 0 => evaluated = legal)
        IN Report(B) /\ bad' = B
     /\ best' = Rec[l].mv /\ bestScore' = ScoreOf(Rec[l].score) /\ commits' = commits + 1 /\ phase' = "idle"
     /\ UNCHANGED <<pos, legal, side, expired, evaluated, pending, cur, curScore>>
     /\ l' = l + 1
 
 MateCodes == Codes(MateMoves(pos))
+\* the premise "the time limit lets the first deepening pass finish": a pass was committed before the
+\* limit expired - or the limit never expired at all while the search ran (a search that returns on
+\* its own, e.g. by a shortcut that bypasses the deepening loop, was not stopped by the limit)
+FirstPassDone == commits >= 1 \/ ~expired
 \* the search returns
 SEnd ==
     /\ Ev("s_end")
     /\ LET e == Rec[l]
            sc == ScoreOf(e.score)
-           mates == IF commits >= 1 \/ Eq(sc, MateInOneFor(side)) THEN MateCodes ELSE {}
+           mates == IF FirstPassDone \/ Eq(sc, MateInOneFor(side)) THEN MateCodes ELSE {}
            B == Fail("C11", "search-did-not-terminate", e.terminated)
                 \cup Fail("C11", "search-panicked", ~e.panicked)
                 \cup Fail("C11", "returned-move-not-legal", e.mv = NoMove \/ e.mv \in legal)
                 \cup Fail("C11", "move-returned-although-none-is-legal", legal = {} => e.mv = NoMove)
-                \cup Fail("C11", "no-move-although-first-pass-completed", (commits >= 1 /\ legal # {}) => e.mv # NoMove)
-                \cup Fail("C11", "result-is-not-the-last-commit", e.mv = best /\ Eq(sc, bestScore))
-                \cup Fail("C12", "mate-in-one-not-played", (commits >= 1 /\ mates # {}) => e.mv \in mates)
-                \cup Fail("C12", "mate-in-one-not-reported", (commits >= 1 /\ mates # {}) => Eq(sc, MateInOneFor(side)))
+                \cup Fail("C11", "no-move-although-first-pass-completed", (FirstPassDone /\ legal # {}) => e.mv # NoMove)
+                \cup Fail("DRIFT", "result-is-not-the-last-commit", e.mv = best /\ Eq(sc, bestScore))
+                \cup Fail("C12", "mate-in-one-not-played", (FirstPassDone /\ mates # {}) => e.mv \in mates)
+                \cup Fail("C12", "mate-in-one-not-reported", (FirstPassDone /\ mates # {}) => Eq(sc, MateInOneFor(side)))
                 \cup Fail("C12", "mate-in-one-reported-untruthfully", Eq(sc, MateInOneFor(side)) => e.mv \in mates)
        IN Report({ c \in B : e.terminated \/ c[2] = "search-did-not-terminate" })
           /\ bad' = B
